@@ -142,7 +142,26 @@ def check_lookup_predicate(prog, rep, key, table, arg_ty="char", rule="L4"):
         def binop_hook(self, st, op, a, b):
             if op in ("Shr", "ShrUnchecked") and isinstance(a, ip.Sym) and a.name == "arg" and isinstance(b, ip.I) and 0 <= b.v < 32:
                 return ip.Sym(("arg>>", b.v), a.ty)
+            if op in ("Lt", "Le", "Gt", "Ge") and (isinstance(a, ip.Top) or isinstance(b, ip.Top)):
+                # a bounds check on the found index (C01 decides those): it passes
+                return ip.boolean(op in ("Lt", "Le")) if isinstance(b, ip.Top) else ip.boolean(op in ("Gt", "Ge"))
             return None
+
+        def len_hook(self, st, a):
+            return ip.Top("usize")
+
+        def static_value(self, st, path):
+            return ip.Opq("static", (path,))
+
+        def index_hook(self, st, base, idx):
+            from .. import types as ty_
+            import re as _re
+
+            ety = "?"
+            if isinstance(base, ip.Opq) and base.kind == "static":
+                mm = _re.match(r"^\[(.*);\s*\d+\]$", prog.statics.get(base.data[0], {}).get("ty", ""))
+                ety = mm.group(1) if mm else "?"
+            return ty_.fresh(prog, ety, ("row", st.fresh()))
 
         def compare_hook(self, st, op, a, b):
             if isinstance(a, ip.Sym) and isinstance(a.name, tuple) and a.name[0] == "arg>>" and isinstance(b, ip.I):
